@@ -33,13 +33,20 @@ def observe(modname):
     return o
 
 
-if spec.get('hook') is not None:
+def install(pkg, hook):
     from beartype import BeartypeConf
     from beartype.claw import beartype_package
-    kw = {'claw_is_pep526': bool(spec['hook']['pep526'])}
-    if spec['hook'].get('violation'):
+    kw = {'claw_is_pep526': bool(hook['pep526'])}
+    if hook.get('violation'):
         kw['violation_type'] = C16Violation
-    beartype_package(spec['pkg'], conf=BeartypeConf(**kw))
+    beartype_package(pkg, conf=BeartypeConf(**kw))
+
+
+if spec.get('hook') is not None:
+    install(spec['pkg'], spec['hook'])
+for _pkg, _hook in (spec.get('hooks') or {}).items():
+    if _hook is not None:
+        install(_pkg, _hook)
 
 if spec.get('race'):
     # a hooked import is paused inside source_to_code (the global cache_from_source is patched at that
@@ -62,6 +69,9 @@ if spec.get('race'):
     resume.set()
     th.join(20)
     out['race'] = res
+elif spec.get('pkgs'):
+    # several packages imported one after the other in one process
+    out['obs_multi'] = {p: observe(p + '.mod') for p in spec['pkgs']}
 else:
     out['obs'] = observe(spec['pkg'] + '.mod')
 
